@@ -122,6 +122,32 @@ theorem C12_destroy_terminates_acyclic (S : Schema) (ρ : Key → Nat) (n : Nat)
     (hr : Ranked S db ρ) (hn : ρ (c, i) < n) : (destroy S n db c i).isFuel = false :=
   destroy_nofuel S ρ n db c i hr hn
 
+/-- **C12, refusal (soundness).**  `destroySelf` is refused *only if* some row references a row of the victim's
+    cascade closure through a `cascade=False` key (old database; whatever the recursion depth at which the
+    restriction is discovered, and whatever other keys the referencing class has). -/
+theorem C12_refused_only_if_restricted (S : Schema) (n : Nat) (db db' : DB) (c i : Nat)
+    (hr : destroy S n db c i = .refused db') :
+    ∃ x, Reach S db (c, i) x ∧ ∃ r ∈ db.rows, ∃ f, (S.fk r.cls f).policy = .restrict ∧ RefVia S r f x :=
+  refusedOK_destroy S n db c i db' hr
+
+/-- **C12, refusal, both directions** for acyclic data when no restricting row sits inside the closure:
+    refused ⇔ some row references a closure member through a `cascade=False` key. -/
+theorem C12_refused_iff_partial (S : Schema) (ρ : Key → Nat) (n : Nat) (db : DB) (c i : Nat) (hwf : db.WF)
+    (hrk : Ranked S db ρ) (hn : ρ (c, i) < n)
+    (hout : ∀ r ∈ db.rows, ∀ f x, (S.fk r.cls f).policy = .restrict → Reach S db (c, i) x → RefVia S r f x →
+      ¬ Reach S db (c, i) r.key) :
+    (∃ db', destroy S n db c i = .refused db') ↔
+      ∃ x, Reach S db (c, i) x ∧ ∃ r ∈ db.rows, ∃ f, (S.fk r.cls f).policy = .restrict ∧ RefVia S r f x := by
+  constructor
+  · rintro ⟨db', hr⟩
+    exact C12_refused_only_if_restricted S n db db' c i hr
+  · rintro ⟨x, hx, r, hr, f, hp, hf⟩
+    have hnf := C12_destroy_terminates_acyclic S ρ n db c i hrk hn
+    cases hres : destroy S n db c i with
+    | ok db' => exact absurd hres (C12_restrict_blocks S n db db' c i hwf r hr (hout r hr f x hp hx hf) f hp x hx hf)
+    | refused db' => exact ⟨db', rfl⟩
+    | fuel db' => rw [hres] at hnf; cases hnf
+
 /-! ### The full-strength statements are false of the code: witnesses (replayed on the implementation by the
 harness, corpus/C12/corner.json) -/
 
@@ -129,7 +155,7 @@ harness, corpus/C12/corner.json) -/
 def cycS : Schema := [⟨[⟨0, .cascade⟩], []⟩]
 def cycDB : DB := ⟨[⟨0, 1, [some 1]⟩], [], [(0, 1)]⟩
 
-theorem cyc_step (rec : DB → Nat → Nat → Res) (h : rec cycDB 0 1 = .fuel cycDB) :
+theorem C12_cycle_step (rec : DB → Nat → Nat → Res) (h : rec cycDB 0 1 = .fuel cycDB) :
     destroyStep cycS rec cycDB 0 1 = .fuel cycDB := by
   have hd : dependents cycS 0 = [0] := by decide
   have h1 : ({ cycDB with links := delOwnLinks cycS 0 1 cycDB.links } : DB) = cycDB := by decide
@@ -137,17 +163,17 @@ theorem cyc_step (rec : DB → Nat → Nat → Res) (h : rec cycDB 0 1 = .fuel c
   have hc : depCols cycS 0 0 = [0] := by decide
   have h3 : nullRefs cycS cycDB 0 [0] 1 = cycDB := by decide
   have h4 : (matching cycDB 0 [0] 1).map (·.id) = [1] := by decide
-  have h5 : hasPolicy cycS 0 [0] .restrict = false := by decide
+  have h5 : (!(matching cycDB 0 (restrictCols cycS 0 [0]) 1).isEmpty) = false := by decide
   have h6 : hasPolicy cycS 0 [0] .cascade = true := by decide
   have h7 : present cycDB 0 1 = true := by decide
   unfold destroyStep
   simp only [hd, h1, procDeps, procDep, h2, hc, h3, h4, h5, h6, h7, destroyRows, h, List.isEmpty_cons,
-    Bool.false_eq_true, if_false, Bool.false_and, if_true]
+    Bool.false_eq_true, if_false, if_true]
 
 /-- a self-referencing cascade row: every budget overflows (the real code: `RecursionError`), nothing is deleted -/
 theorem C12_cascade_cycle_diverges : ∀ n, destroy cycS n cycDB 0 1 = .fuel cycDB
   | 0 => rfl
-  | n + 1 => cyc_step _ (C12_cascade_cycle_diverges n)
+  | n + 1 => C12_cycle_step _ (C12_cascade_cycle_diverges n)
 
 /-- full-strength termination ("destroying an object deletes its row …" for *all* populations) is FALSE -/
 theorem C12_terminates_full_FALSE :
@@ -157,25 +183,10 @@ theorem C12_terminates_full_FALSE :
   rw [C12_cascade_cycle_diverges n] at hn
   cases hn
 
-/-- witness (c): `K` has a `cascade=False` key and a `cascade=True` key to `A`; its row references `a` through
-    the cascade key only -/
+/-- witness of the repaired defect (c) (fix 8396437): `K` has a `cascade=False` key and a `cascade=True` key to
+    `A`; its row references `a` through the cascade key only.  It used to be refused; now it cascades. -/
 def mixS : Schema := [⟨[], []⟩, ⟨[⟨0, .restrict⟩, ⟨0, .cascade⟩], []⟩]
 def mixDB : DB := ⟨[⟨0, 1, []⟩, ⟨1, 1, [none, some 1]⟩], [], []⟩
-
-/-- "refused only if a row it would have to delete is referenced through a cascade=False key" is FALSE:
-    a reference through a sibling key of a class that also has a cascade=False key is refused -/
-theorem C12_refused_only_if_restricted_full_FALSE :
-    ¬ (∀ (S : Schema) (n : Nat) (db db' : DB) (c i : Nat), db.WF → destroy S n db c i = .refused db' →
-        ∃ r ∈ db.rows, ∃ f x, (S.fk r.cls f).policy = .restrict ∧ RefVia S r f x) := by
-  intro h
-  obtain ⟨r, hr, f, x, hp, hv⟩ := h mixS 3 mixDB mixDB 0 1 (by simp [DB.WF, mixDB, Row.key]) (by decide)
-  simp only [mixDB, List.mem_cons, List.not_mem_nil, or_false] at hr
-  rcases hr with rfl | rfl
-  · simp [Schema.fk, Schema.cls, mixS] at hp
-  · rcases f with _ | _ | f
-    · simp [RefVia, Row.val] at hv
-    · simp [Schema.fk, Schema.cls, mixS] at hp
-    · simp [Schema.fk, Schema.cls, mixS] at hp
 
 /-- witness (d): `r` references `b` through a cascade key and `c` through a `cascade=False` key; `b` is
     processed first -/
@@ -195,7 +206,8 @@ theorem C12_restrict_blocks_full_FALSE :
     (by simp [insDB]) (by decide) hreach ⟨by decide, by decide⟩ (by decide)
 
 /-! ### Non-vacuity -/
-example : destroy mixS 3 mixDB 0 1 = .refused mixDB := by decide
+example : destroy mixS 3 mixDB 0 1 = .ok ⟨[], [], []⟩ := by decide
+example : destroy mixS 3 ⟨[⟨0, 1, []⟩, ⟨1, 1, [some 1, none]⟩], [], []⟩ 0 1 = .refused ⟨[⟨0, 1, []⟩, ⟨1, 1, [some 1, none]⟩], [], []⟩ := by decide
 example : destroy insS 5 insDB 0 1 = .ok ⟨[], [], []⟩ := by decide
 /-- a chain of depth 2 with a null reference, a kept reference and link rows on both sides -/
 example : destroy [⟨[], [⟨2, 0, true⟩]⟩, ⟨[⟨0, .cascade⟩], []⟩, ⟨[⟨1, .cascade⟩, ⟨0, .setNull⟩, ⟨0, .keep⟩], [⟨0, 0, false⟩]⟩] 4
